@@ -228,6 +228,11 @@ fn render(v: rusqlite::types::ValueRef<'_>) -> String {
 }
 
 pub fn dump_db(conn: &Connection) -> Dump {
+    dump_db_mapped(conn, &|_, _, v| v)
+}
+
+/// Like `dump_db`, but every rendered cell goes through `map(table, column, rendered)`.
+pub fn dump_db_mapped(conn: &Connection, map: &dyn Fn(&str, &str, String) -> String) -> Dump {
     let mut out = Dump::new();
     let tables: Vec<String> = {
         let mut st = conn.prepare("SELECT name FROM sqlite_schema WHERE type = 'table' AND name NOT LIKE 'sqlite_stat%' ORDER BY name").expect("schema");
@@ -240,10 +245,11 @@ pub fn dump_db(conn: &Connection) -> Dump {
             Err(_) => continue, // virtual tables without a module etc.
         };
         let n = st.column_count();
+        let names: Vec<String> = (0..n).map(|i| st.column_name(i).unwrap_or("?").to_string()).collect();
         let mut rows: Vec<String> = vec![];
         let mut q = st.query([]).expect("query");
         while let Some(r) = q.next().expect("row") {
-            let cols: Vec<String> = (0..n).map(|i| render(r.get_ref(i).expect("col"))).collect();
+            let cols: Vec<String> = (0..n).map(|i| map(&t, &names[i], render(r.get_ref(i).expect("col")))).collect();
             rows.push(cols.join("|"));
         }
         rows.sort();
